@@ -532,6 +532,8 @@ func rulesC02(c *Ctx) {
 
 	c.Rule("R-C02-8", "on the streamable server a logical stream outlives every call of its POST: each response of a batch still finds its stream (shared with R-C08-6)", func() { streamBookkeepingRule(c) })
 
+	c.Rule("R-C02-6", "ids are echoed exactly: integer ids never pass through float64 on the decode path (shared with R-C19-1)", func() { idExactnessRule(c) })
+
 	c.Rule("R-C02-7", "the HTTP transports pre-validate every decoded request (checkRequest → 4xx) before handing it to the session", func() {
 		cr := c.FnObj(pM, "", "checkRequest")
 		// streamable
